@@ -340,10 +340,10 @@ def splunkOut (cfs : List CopyField) (lim : Nat) (batch : List Ev) (wd : WD) (sc
   let b0 := resetBuf lim wd
   let b := forEach (fun b e => b.append (splunkFrame cfs e)) batch b0
   let n := forEach (fun (n : Nat) _ => n + 1) batch 0
-  let (st, sc1) := nextStatus 200 sc
+  let st := (nextStatus 200 sc).1
   -- err != nil → `if code == 400 { return nil }`, else `return err`
   let ok := isOkStatus st || st = 400
-  .ok (b, ⟨ok, [⟨st, b.data, n⟩]⟩, sc1)
+  .ok (b, ⟨ok, [⟨st, b.data, n⟩]⟩, (nextStatus 200 sc).2)
 
 /-! ### loki: `route = [tsFlag, tsQuoted, msgQuoted, rest]` (tsFlag `00` valid, `01` not UnixNano) -/
 
@@ -382,9 +382,9 @@ def lokiOut (labels : Bytes) (batch : List Ev) (_wd : WD) (sc : List Nat) : GoM 
   match lokiValues msgs with
   | none => .ok (⟨[], 0⟩, ⟨true, []⟩, sc)        -- errUnixNanoFormat: `return nil`, nothing sent
   | some vs =>
-    let (st, sc1) := nextStatus 204 sc
+    let st := (nextStatus 204 sc).1
     let ok := st = 204 || st = 400
-    .ok (⟨[], 0⟩, ⟨ok, [⟨st, lokiBody labels vs, vs.length⟩]⟩, sc1)
+    .ok (⟨[], 0⟩, ⟨ok, [⟨st, lokiBody labels vs, vs.length⟩]⟩, (nextStatus 204 sc).2)
 
 /-! ### kafka: record values are slices of one growing buffer -/
 
